@@ -1233,8 +1233,12 @@ def run_cases(nk, cases):
 
 
 def run_rich(ck, nk):
+    import time
+    t0 = time.time()
     cases = gen_cases(ck.seed, ck.tier)
     rc, res, err = run_cases(nk, cases)
+    ck.coverage["rich_wall_s"] = round(time.time() - t0, 1)
+    ck.log("rich stream: %d programs evaluated in %.1fs" % (len(cases), time.time() - t0))
     if rc:
         ck.obligation("run:rich", "internal", False, err[-300:])
     nviol = 0
